@@ -31,9 +31,41 @@ def run(res, work, tier, seed):
     res.distinct += meta["distinct"]
     res.samples += meta["samples"][:3]
     vlib.run_core_family(res, work, "c10", tier, seed, parts=4, clauses=CLAUSES, timeout=3400)
+    conc(res, work, tier, seed)
     res.rule = ("random call histories (tick / Start / Stop / Exec with nil and error outcomes) over a harness-driven package clock, on timers and duration histograms, "
                 "plain / cached / reporter-less test scope, clock units from 1ns to 3h: Stop must record exactly clock(Stop) - clock(Start), Exec runs f once, records one "
                 "latency, increments exactly the matching outcome counter and returns the very same error value. "
                 "executions under the controlled scheduler: records on two timers in two scopes from two goroutines interleaved with report passes / the report loop / root Close "
                 "(plain and cached): every Record window contains exactly one timer delivery with the same identity and duration on the recording goroutine, and no timer "
                 "delivery happens outside such a window (passes neither repeat nor buffer timers); durations include 0, negative, Min/MaxInt64.")
+
+
+def conc(res, work, tier, seed):
+    """Concurrent Record on one timer (reporter-less test scope, plain, cached): the sink's append as a two-step critical
+    section (TimerSink.tla) and free-running histories of the real code compared as multisets (TimerSinkTrace.tla)."""
+    import os
+    big = tier == "thorough"
+    c = vlib.write_cfg(work, "tsink.cfg", "TimerSink.cfg", {"NRec": 3 if big else 2})
+    vlib.mc_expect_ok(work, "TimerSink.tla", c, "TimerSink: 3 goroutines x %d records on one reporter-less timer" % (3 if big else 2), res, timeout=1800)
+    c = vlib.write_cfg(work, "tsink_w.cfg", "TimerSink.cfg", {"WeakSharedLockAppend": "TRUE"})
+    vlib.mc_expect_violation(work, "TimerSink.tla", c, "ExactlyOnce", "WeakSharedLockAppend", res, timeout=600)
+    out = os.path.join(work, "conc")
+    os.makedirs(out)
+    vlib.stage_specs(out)
+    vlib.run_vh(["c10conc", "-out", out, "-seed", seed, "-tier", tier], timeout=1800)
+    meta = vlib.read_meta(out)
+    trace = os.path.join(out, "trace.ndjson")
+    fails, r = vlib.tlc_trace(out, "TimerSinkTrace.tla", "TimerSinkTrace.cfg", trace, meta["events"], timeout=3000, xss=True)
+    res.add_trace_run("TimerSinkTrace (concurrent Record on one timer)", r, meta["cases"], meta["events"])
+    res.states += r["distinct"]; res.transitions += r["generated"]
+    lines = vlib.read_lines(trace)
+
+    def ctx(ln):
+        c = vlib.case_context(lines, max(ln, 1), lambda s: '"e":"reset"' in s, max_lines=3)
+        return c
+    res.judge_fails([(ln, cl.split(":")[0], cl) for (ln, cl, ex) in fails], [l[:400] for l in lines], ctx)
+    res.evaluations += meta["evals"]
+    res.distinct += meta["distinct"]
+    res.samples += meta["samples"][:2]
+    res.rule += (" free-running: 2-6 goroutines record distinct durations on one shared timer of the root, one of a tagged sub-scope and a timer of their own while passes / snapshots run, "
+                 "on a reporter-less test scope, a plain and a cached recording reporter: what Snapshot().Timers() / the reporter holds afterwards equals what was recorded, as multisets.")
